@@ -129,6 +129,7 @@ def work(item, tier, seed):
         res.notes["subset_bound_hit"] = [pname]
     subsets = [S for i, S in enumerate(subsets) if i % nchunks == chunk]
     raised = set()
+    gen_cache = {}
     for S in subsets:
         variants = [("dict", S)]
         if not S:
@@ -140,8 +141,11 @@ def work(item, tier, seed):
                 jcons = None if cons is None else jax.tree_util.tree_map(jnp.asarray, cons)
                 sigS = "+".join("/".join(p) for p in S) or ("None" if how == "None" else "{}")
                 try:
-                    gen = jax.jit(lambda k, c, *a: gseed(fn.generate)(k, c, *a))
-                    gen(key, jcons, *jargs)
+                    # one compiled function per constraint structure, shared by the base choice maps
+                    if sigS not in gen_cache:
+                        gen_cache[sigS] = jax.jit(lambda k, c, *a: gseed(fn.generate)(k, c, *a))
+                    gen = gen_cache[sigS]
+                    env.run_recorded(gen, key, jcons, *jargs)
                 except Exception as ex:
                     handler_stack.clear()
                     if (pname, sigS) not in raised:
